@@ -13,6 +13,9 @@ import r_conv
 import r_window
 import r_mirror
 import r_absint
+import r_step
+import r_peek
+import r_nan
 
 
 def _sets(quick, thorough=None):
@@ -38,20 +41,19 @@ NOT_APPLICABLE = {
     'C15': 'Affine equivariance, range preservation, superposition and impulse responses relate numeric outputs of several runs; the '
            'only structural ingredient (kind<->method wiring) is claimed as S06 under C05/C18.',
     # claimed in DESIGN.md, check not built yet in this commit (moved to `checks` as each is armed):
-    'C12': 'check under construction (DESIGN.md §5 C12): not yet armed in this commit',
 }
 
 PROPS = {
     'C05': dict(
-        rules=[r_tables.s06_ma_dispatch],
+        rules=[r_tables.s06_ma_dispatch, r_step.s07_step_once],
         feature_sets=_sets(['default']),
-        explanation=('Wiring conditions every indicator formula depends on: (S06) for each of the MA kinds, MA::init builds the method '
+        explanation=('(S07) every field of every method / indicator instance that is itself a Method, a configurable moving average or a Window is stepped exactly once on every path of next() (inter-procedural through &mut self helpers; seven named exceptions with reasons). Wiring conditions every indicator formula depends on: (S06) for each of the MA kinds, MA::init builds the method '
                      'type held by the same-named MAInstance variant from that arm\'s own period and wraps exactly that instance; '
                      'MAInstance::next steps that payload with the input value and returns it; ma_period returns the arm\'s payload; '
                      'ma_type codes are pairwise distinct; from_str maps exactly lowercase(kind) to the kind with the parsed period and '
                      'rejects everything else. Decided by enumerating every path of the five functions on MIR.'),
         not_decided=['the formulas themselves (which source, operator and period feed which average) are numeric behaviour: not decided',
-                     'step-once discipline of every stateful component (rule S07) when armed'],
+                     'S07 does not see a wrong argument handed to a step'],
         assumptions=TRUST,
         technique='static analysis: per-path table extraction from MIR (enum dispatch agreement)',
         level_text=('Necessary wiring condition of "every moving-average kind where one is configurable": decided exactly for all 15 '
@@ -72,7 +74,7 @@ PROPS = {
                     'about floating-point drift.'),
     ),
     'C09': dict(
-        rules=[r_wrap.s09_pass_through, r_serde.s10_state_purity],
+        rules=[r_wrap.s09_pass_through, r_serde.s10_state_purity, r_peek.s11_peek_next_agreement],
         feature_sets=_sets(['default'], ['default', 'nodefault', 'ci']),
         explanation=('(S09) every batch/functional wrapper (provided methods of Method, Sequence, IndicatorConfig, IndicatorInstance, '
                      'WithHistory/WithLastValue::next) either steps next() exactly once per element on the element itself or delegates '
@@ -80,8 +82,10 @@ PROPS = {
                      'provided wrapper. (S10) the state of every method/instance/config type is plain owned data (no interior '
                      'mutability, pointers, borrows, Rc/Arc, fn objects, hash containers), Clone is derived, the crate has no mutable '
                      'statics and calls no non-determinism source: by safe-Rust semantics instances are deterministic functions of '
-                     'their construction arguments and input history and clones are independent.'),
-        not_decided=['peek() == last value produced by next() (rule S11) when armed',
+                     'their construction arguments and input history and clones are independent. (S11) for every Peekable method, on every path of '
+                     'next() the returned value is peek() evaluated on the state next() leaves behind (fields at their final version, values '
+                     'just stored, or the inlined peek of a sub-method stepped last).'),
+        not_decided=['S11 decides peek()==last output structurally (versioned symbolic execution of every path of next(), sub-method peeks inlined); numerically equal but structurally different expressions would be reported',
                      'bit-identical results across machines with different fma/libm are a platform matter'],
         assumptions=TRUST + ['safe Rust: a value without interior mutability or shared ownership is changed only through &mut access'],
         technique='static analysis: call-graph / adaptor whitelist on MIR, type-closure walk (ownership argument)',
@@ -209,16 +213,20 @@ PROPS = {
                     'helper, ~1800 bodies compared. Complete for the property as stated, modulo the trusted std contracts.'),
     ),
     'C20': dict(
-        rules=[r_width.s21_iso, r_width.s21_ops, r_counters.s08_monotone_counters],
+        rules=[r_width.s21_iso, r_width.s21_ops, r_counters.s08_monotone_counters,
+               lambda ctx: r_absint.a01_constructors(ctx, groups=('method-new', 'ma-init', 'config-init'), fs='u16', rule_id='A01-u16', min_entries=85,
+                   title='period_type_u16 build: method constructors, MA::init and indicator init reach no panic / overflow for any 16-bit length '
+                         '(window lengths beyond 255 construct as the narrow ones do)')],
         feature_sets=_sets(['default', 'u16'], ALL8),
         build_failure_is_violation=True,
         explanation=('(a) every requested feature set type-checks; (S21-iso) the u16/u32/u64 builds have the same items and, function by '
                      'function, the same MIR as the default build up to the PeriodType rename and capacity constants of the form '
                      'MAX/2^j - k; (S21-ops) every width-sensitive operation on a PeriodType-typed value (narrowing / float cast into it, '
                      'saturating_add and friends, capacity constants) lies in a constructor-like function (new/validate/init/deserialize/'
-                     'from_parts) or carries a recorded argument; (S08) no narrow monotone position counter.'),
+                     'from_parts) or carries a recorded argument; (S08) no narrow monotone position counter; (A01-u16) the abstract interpreter run on the '
+                     'period_type_u16 build refutes every panic site reachable from constructors for all 65536 lengths.'),
         not_decided=['definitional equalities beyond length 255 and at single precision (numeric): not decided',
-                     'that width-sensitive operations inside constructors never truncate for admissible parameters: rule A01 when armed'],
+                     'constructors of the u32/u64 builds are not interpreted (lengths of 10^5 and more overflow usize products there and cannot be allocated anyway)'],
         assumptions=TRUST,
         technique='static analysis: cross-build MIR isomorphism diff and enumeration of width-sensitive operations',
         level_text=('The builds are shown to be one program up to the integer type; the finite list of width-sensitive operations is '
@@ -273,5 +281,24 @@ PROPS = {
         assumptions=TRUST,
         technique='static analysis: per-path emission discipline on MIR, same-name wiring of struct literals',
         level_text='Emission discipline and aggregation wiring decided exactly; numeric converter behaviour not claimed.',
+    ),
+    'C12': dict(
+        rules=[r_nan.s16_nan_sources, r_nan.s16b_dispersion_sign],
+        feature_sets=_sets(['default']),
+        explanation=('(S16) every float division, remainder, sqrt, ln, atanh and recip in every non-constructor function is enumerated from MIR '
+                     'and its critical operand classified: G1 non-zero literal; G2 cast of an integer that the abstract interpretation of '
+                     'init()/new() bounds >= 1 for every accepted instance, or a float field fixed non-zero at construction and never written '
+                     'afterwards; G3 dominated (CFG dominators) by a numeric test excluding zero for the same value (d == 0, d > 0, or a == b for '
+                     'd = a - b), sqrt of abs()/square, atanh of a clamp with constant bounds inside (-1, 1); G4/G5 only through a table line naming '
+                     'the function and stating the missing argument / "formula undefined here". Unclassified sites are violations. (S16b) sign '
+                     'analysis of the value tree returned by StDev/MeanAbsDev/MedianAbsDev::peek: non-negative by construction.'),
+        not_decided=['interval containment of oscillators ([0,1], [-1,1]), upper >= middle >= lower, channel containment, SAR side, non-negativity '
+                     'of LinearVolatility and of the true range: they depend on rounding residue in running sums or on relations between candle '
+                     'fields and are not decided',
+                     'the hand-argued classes G4/G5 (11 sites, listed with their arguments in the evidence) are arguments, not proofs'],
+        assumptions=TRUST,
+        technique='static analysis: enumeration of NaN-capable float operations on MIR, dominator-based guard matching, interval facts from abstract interpretation, sign analysis',
+        level_text=('Decides the "every output is finite wherever its formula is defined" clause as a guard discipline over all 33 NaN-capable '
+                    'sites, and non-negativity of three dispersion measures; numeric range clauses are not claimed.'),
     ),
 }
